@@ -132,7 +132,7 @@ var props = map[string]*propCfg{
 	"C15": {
 		Rule:        "SetFloat64 (30%): float64 bit patterns (uniform bits, subnormals, powers of two +-1 ulp, extremes, short binary fractions, decimal-looking values, +-0, +-Inf, NaN) at precision 0 (-> 17), 1..40 and 700..800 (holds every float64 expansion): sign kept, zeros/infinities mapped to themselves, NaN => ErrNaN, exact whenever MinPrec(expansion) <= precision, otherwise at most one unit in the last place from RoundOnce(exact). SetFloat (15%): big.Float of 1..2 000 bits, binary exponents to +-3 000 (thorough +-100 000), +-0 and +-Inf: same rules with a 64-unit bound; argument unchanged. Float64/Float32 (40%): Decimals on the float grid, at exact midpoints of adjacent floats, and those nudged by a relative 10^-3..10^-60; values around both ends of each format's range and at astronomically large exponents; zeros, infinities: the returned value must be the float nearest to x (big.Rat.Float64/Float32 on the exact rational, range alone beyond |exponent| 400) and the accuracy sign(returned - x). Float (15%): result precision as documented, within 64 binary units of x, special values. Non-trivial = finite inputs. Added in later rounds: receivers at MaxPrec, dirty Float destinations, Float beyond big.Float's exponent range, over-wide big.Floats, short decimal integers c x 10^n, float64 look-alikes at the ends of the double's range, thousands of digits into thousands of bits, precision-0 zeros; the accuracy of Float64/Float32 is judged against the returned value for every finite input. Round 7: big.Floats of 2 000 .. 140 000 bits (short mantissas) for SetFloat; the precision a precision-0 receiver is given is compared with the exact count of digits of 2^Prec(), not with a float64 formula. Round 8: float look-alikes with a tail 60..6 000 digits down, in mantissas padded with up to 400 zero digits below it; zeros and infinities of any uint32 precision (and sums of small multiples of the continued-fraction denominators of log10 2) for SetFloat's precision-0 default, against an exact count (D42).",
 		Assumptions: []string{"'a few dozen units' (SetFloat, Float) is read as 64 units in the last place: a drift alarm, not a tight specification", "big.Float binary exponents are capped (oracle cost): +-3 000 quick, +-100 000 thorough", "Float64/Float32 results for x within 2^-8 ulp (float64) / 2^-5 ulp (float32) of a multiple of half the format's spacing are known finding D12 as far as the returned VALUE is concerned (double rounding through a 64/32-bit big.Float may return the second-nearest value at a midpoint); everything outside that band is a violation, and the accuracy is judged for every finite input against the value that was returned"},
-		Floors:      []floor{{"SetFloat64/", 30000}, {"setfloat64_exactly_representable", 3000}, {"SetFloat/finite", 10000}, {"Float64/midpoint", 5000}, {"Float32/midpoint", 2000}, {"tofloat_outside_double_rounding_band", 10000}, {"tofloat_accuracy_judged_against_returned_value", 50000}, {"Float/finite", 10000}, {"Float64/range-edge", 3000}},
+		Floors:      []floor{{"SetFloat64/", 30000}, {"setfloat64_exactly_representable", 3000}, {"SetFloat/finite", 10000}, {"Float64/midpoint", 5000}, {"Float32/midpoint", 2000}, {"tofloat_outside_double_rounding_band", 10000}, {"tofloat_accuracy_judged_against_returned_value", 45000}, {"Float/finite", 10000}, {"Float64/range-edge", 3000}},
 		LevelText:   "Runtime monitoring of the binary conversions against exact rationals (big.Rat) with inputs constructed on and beside the float grid.",
 		Technique:   "runtime oracle monitoring: exact rational reference (big.Rat nearest-float), grid-constructed inputs",
 		DesignRef:   "DESIGN.md §4 C15",
@@ -148,7 +148,7 @@ var props = map[string]*propCfg{
 	"C12": {
 		Rule:        "Decimal literals (35%): generated from a digit string (1..6 000 digits, rounding-aimed or patterned, leading/trailing zeros, all zeros), a radix point anywhere, an exponent to both ends of the int32 range, rendered plainly and with '_' separators, through Parse(s,10), Parse(s,0), SetString, ParseDecimal, UnmarshalText and fmt.Sscan; receiver precision 0 (-> 34), 1..45 or digit count +-3, six modes, dirty receivers: value and accuracy against the exact literal value by both oracle models, reported base, resulting precision and mode. Binary literals (20%): 0b/0o/0x mantissas with optional fraction and optional p exponent, decimal mantissas with a p exponent: exact value m x 2^k; stored exactly when its decimal expansion fits the precision, otherwise within one unit of the correctly rounded value; detected base. Exponent range (10%): non-zero and zero mantissas with exponents within 400 (sometimes 200 000) of +-2^31, 2^32, 2^63, 2^64, k*2^64, 2^65 and 11..30-digit exponents, with sign and leading-zero variants: accepted exactly when the exponent text fits an int64 and the leading digit's exponent (computed in big.Int) lies in [MinExp, MaxExp], then stored exactly-then-rounded; rejected with a nil result otherwise. Language (40%): token soup, mutated and truncated literals, literals with trailing garbage, x bases {0,2,8,10,16}: no entry point may panic; a failed call returns a nil *Decimal; an accepted one leaves a canonical value; acceptance and detected base must equal big.Float.Parse for literals whose exponent magnitude is <= 10^4 (beyond that math/big's binary exponent range differs). Every case is non-trivial. Added in later rounds: SetString/ParseDecimal/UnmarshalText must agree with Parse (acceptance and state), foreign spellings (null, <nil>, ...), Sscanf with every floating-point verb, binary exponents around and beyond +-2^31/2^32/2^63/2^64, mixed-base literals (0b/0o mantissa with a fraction and a decimal exponent) aimed at both ends of the range and at rounding carries, ParseDecimal precisions beyond 2^32, binary literals into receivers at the top of the precision range. Round 7: mixed-base literals also with sparse mantissas 1.000...0001 (20..110 digits) at the ends of the range; a mixed-base literal whose exact value lies above the exponent range must be rejected like its decimal spelling (only a value inside the range whose rounding carries out becomes an infinity). Round 8: a second sign in front of literals and infinity spellings (-+Inf, +-1, --0x1p3 ...).",
 		Assumptions: []string{"Scan (fmt) accepts a valid prefix by design: its acceptance is not compared with Parse's", "language comparison is limited to exponent magnitudes <= 10^4; range rejections beyond that are covered by the decimal-literal cases at both range ends"},
-		Floors:      []floor{{"decimal/", 60000}, {"binary/", 30000}, {"binary_exactly_representable", 5000}, {"range/accepted", 1500}, {"range/rejected", 15000}, {"language/accepted", 10000}, {"language/rejected", 20000}, {"language_compared_with_math_big", 40000}, {"entry_point_calls", 150000}},
+		Floors:      []floor{{"decimal/", 60000}, {"binary/", 30000}, {"binary_exactly_representable", 5000}, {"range/accepted", 1200}, {"range/rejected", 12000}, {"language/accepted", 10000}, {"language/rejected", 20000}, {"language_compared_with_math_big", 40000}, {"entry_point_calls", 150000}},
 		LevelText:   "Runtime monitoring of the parser against exact literal values and against math/big's parser as a reference for the accepted language; grammar-aware fuzzing for totality.",
 		Technique:   "runtime oracle monitoring: exact literal reference + differential vs math/big Float.Parse; recover()-instrumented fuzzing",
 		DesignRef:   "DESIGN.md §4 C12",
